@@ -28,10 +28,9 @@
                                     outside face ∪ spares unchanged (other faces untouched), β2 of every face dart (the
                                     neighbour across each side) unchanged, spare darts 2-linked pair by pair.
 
+  CONTINUED in Props/C13c.lean: the exact face structure after ear clipping (`C13_earclip_structure`).
+
   NOT PROVED
-  * the exact face structure after EAR CLIPPING (each cut ear is a triangle of the intended darts): needs the
-    invariant "the kernel's `darts` vector is the current face in cyclic order" through the vector surgery
-    (`remove / push / swap_remove`), which is false for `ear = n − 1` (unreachable on simple polygons);
   * that the triangles of `FanResult` carry the coordinates of `fanTriangles` (vertex data only moves through
     `avg v v = v` on equal copies and the final `write_vertex`); both validated by the oracle of c13.py.
 -/
